@@ -182,7 +182,8 @@ def run_op(api, layout_mod, write_elf, op):
                              opt_level=op["opt"], debug=op.get("debug", False),
                              reporter=rep)
             elif kind == "c3":
-                obj = api.c3c([io.StringIO(op["src"])], [], op["march"],
+                srcs = [op["src"]] + list(op.get("more_srcs", []))
+                obj = api.c3c([io.StringIO(x) for x in srcs], [], op["march"],
                               opt_level=op["opt"],
                               debug=op.get("debug", False))
             elif kind == "asm":
